@@ -236,6 +236,7 @@ pub fn bank_program(seed: u64, p: u64, cart_type: u8, rom_code: u8) -> (Vec<u8>,
     image[off + 0x3fff] = 0xc3;
   }
   image[0x3040..0x3043].copy_from_slice(&[0x81, 0x4f, 0xc9]); // ADD A,C; LD C,A; RET
+  image[0x3048..0x304c].copy_from_slice(&[0x81, 0x4f, 0x0c, 0xc9]); // a second target: ADD A,C; LD C,A; INC C; RET
   // bank-0 tail that falls through 0x3FFF -> 0x4000
   for i in 0x3ff8..0x4000usize {
     image[i] = 0x0c; // INC C
@@ -300,8 +301,13 @@ pub fn bank_program(seed: u64, p: u64, cart_type: u8, rom_code: u8) -> (Vec<u8>,
         let k = 1 + 2 * rng.below((banks.min(32) / 2) as u64) as u8;
         a.ld_a(k);
         a.ld_a_to(0x2100);
+        // the low byte of the target is rewritten before every call: what the jump does must
+        // follow video RAM, not what video RAM held when the jump was first seen
+        let lo = if rng.chance(1, 2) { 0x40 } else { 0x48 };
+        a.ld_a(lo);
+        a.ld_a_to(0x8000);
         a.call(0x7ffe);
-        desc.push_str(&format!(" tailjump{:02X}", k));
+        desc.push_str(&format!(" tailjump{:02X}->30{:02X}", k, lo));
       }
       15 | 16 => {
         // banked code that maps another bank over itself and reads the window afterwards
